@@ -443,6 +443,108 @@ def rule_pointer_scale(chk, prog, tier):
     r.exhaustive = False
 
 
+# ------------------------------------------------------------------ C05.g unary operators
+
+def rule_unary(chk, prog, tier):
+    r = chk.rule('C05.g', 'unary + - ~ ! and sizeof/_Alignof: operand constraints, integer promotion of the operand, result type, and the expression built (-x on the promoted operand, ~x as promoted x ^ all-ones, !x as x == 0 of type int, sizeof/_Alignof as size_t constants of the operand\'s size/alignment)',
+                 floor=150, oracle='C11 6.5.3.3, 6.5.3.4')
+    fn = prog.require_func('unaryexpr', 'expr.c')
+    O = oracle(SIGNEDCHAR['x86_64-sysv'])
+    OPS = ['TADD', 'TSUB', 'TBNOT', 'TLNOT', 'TSIZEOF', 'TALIGNOF']
+    def one(op):
+        def runner(it):
+            it.MAX_STEPS = 10 ** 8
+            w = World(prog, it=it, target='x86_64-sysv')
+            u = universe(w)
+            ops = operands(w, u)
+            names = dict(u)
+            out = {}
+            tokobj = it.gobj('tok')
+            cur = {'e': None, 'i': 0}
+            seq = [op, 'X', 'TSEMICOLON'] if op not in ('TSIZEOF',) else [op, 'X', 'TSEMICOLON']
+            def load():
+                k = seq[min(cur['i'], len(seq) - 1)]
+                tokobj.f[('kind',)] = ev(prog, 'TIDENT' if k == 'X' else k); tokobj.f[('lit',)] = None
+                tokobj.f[('loc', 'file')] = None; tokobj.f[('loc', 'line')] = 1; tokobj.f[('loc', 'col')] = 1
+            def nxt(i2, a, e): cur['i'] += 1; load(); return None
+            def operand(i2, a, e):
+                if seq[min(cur['i'], len(seq) - 1)] != 'X': raise Terminal('error', 'expected expression')
+                nxt(i2, a, e); return cur['e']
+            it.models.update({'next': nxt, 'consume': lambda i2, a, e: 0, 'castexpr': operand, 'postfixexpr': operand,
+                              'fatal': lambda i2, a, e: (_ for _ in ()).throw(Terminal('fatal', a)), 'error': lambda i2, a, e: (_ for _ in ()).throw(Terminal('error', a))})
+            EX = {ev(prog, k): k for k in ('EXPRCONST', 'EXPRUNARY', 'EXPRBINARY', 'EXPRCAST', 'EXPRTEMP', 'EXPRBITFIELD', 'EXPRSIZEOF')}
+            for n, e_, d in ops:
+                cur['e'] = e_; cur['i'] = 0; load()
+                try:
+                    res = it.call(fn, [Ptr(Obj('scope', 'heap'), ())])
+                except Terminal as t:
+                    out[n] = 'error' if t.what == 'error' else 'terminal:' + t.what; continue
+                def strip(x):
+                    while EX.get(it.load(x.obj, ('kind',))) == 'EXPRCAST': x = it.load(x.obj, ('base',))
+                    return x
+                k = EX.get(it.load(res.obj, ('kind',)))
+                rt = name_of_type(names, it.load(res.obj, ('type',)))
+                info = {'kind': k, 'type': rt}
+                if k == 'EXPRCONST': info['value'] = it.load(res.obj, ('u', 'constant', 'u'))
+                if k == 'EXPRUNARY':
+                    info['op'] = it.load(res.obj, ('op',)); b = it.load(res.obj, ('base',))
+                    info['operand'] = strip(b).obj is e_.obj; info['optype'] = name_of_type(names, it.load(b.obj, ('type',)))
+                if k == 'EXPRBINARY':
+                    info['op'] = it.load(res.obj, ('op',)); l = it.load(res.obj, ('u', 'binary', 'l')); rr = it.load(res.obj, ('u', 'binary', 'r'))
+                    info['operand'] = strip(l).obj is e_.obj; info['ltype'] = name_of_type(names, it.load(l.obj, ('type',)))
+                    rs = strip(rr)
+                    info['rconst'] = it.load(rs.obj, ('u', 'constant', 'u')) if EX.get(it.load(rs.obj, ('kind',))) == 'EXPRCONST' else None
+                    info['rtype'] = name_of_type(names, it.load(rr.obj, ('type',)))
+                if k in ('EXPRTEMP', 'EXPRBITFIELD', 'EXPRCAST'):
+                    info['operand'] = strip(res).obj is e_.obj
+                out[n] = info
+            return out, {n: {k: v for k, v in d.items() if k != 'type'} for n, _, d in ops}
+        runs = explore(prog, runner, {}, max_runs=2)
+        if len(runs) != 1 or runs[0].outcome != 'return':
+            raise AnalysisBroken('unaryexpr %s: %s' % (op, [(x.outcome, x.detail) for x in runs]))
+        return op, runs[0].value
+    import par
+    SIZES = {'bool': 1, 'char': 1, 'schar': 1, 'uchar': 1, 'short': 2, 'ushort': 2, 'int': 4, 'uint': 4, 'long': 8, 'ulong': 8, 'llong': 8, 'ullong': 8, 'float': 4, 'double': 8, 'ldouble': 16,
+             'enum_uint': 4, 'enum_int': 4, 'enum_long': 8}
+    for op, (out, descs) in par.pmap(one, OPS):
+        for n, got in out.items():
+            d = descs[n]
+            key = 'unary:%s,%s' % (op, n)
+            where = 'expr.c:%s' % fn.get('line')
+            arith = d['k'] == 'arith'; isint = o_isint(d, O); scalar = arith or d['k'] == 'ptr'
+            prom = o_promote(d['t'], d.get('w'), O) if isint else (d['t'] if arith else None)
+            if op in ('TADD', 'TSUB'):
+                if not arith: r.instance(got == 'error', key, where, 'operand must be arithmetic: expected a diagnostic, got %s' % (got,)); continue
+                if got == 'error' or isinstance(got, str): r.instance(False, key, where, 'valid operand rejected: %s' % got); continue
+                if op == 'TADD': ok = canon(got['type']) == canon(prom) and got.get('operand', got['kind'] in ('EXPRTEMP', 'EXPRBITFIELD', 'EXPRCONST'))
+                else: ok = got['kind'] == 'EXPRUNARY' and got['op'] == ev(prog, 'TSUB') and canon(got['type']) == canon(prom) and got['operand'] and canon(got['optype']) == canon(prom)
+                r.instance(bool(ok), key, where, 'expected %s of type %s applied to the promoted operand; got %s' % ('the operand' if op == 'TADD' else 'negation', prom, got))
+            elif op == 'TBNOT':
+                if not isint: r.instance(got == 'error', key, where, 'operand must have integer type: expected a diagnostic, got %s' % (got,)); continue
+                if isinstance(got, str): r.instance(False, key, where, 'valid operand rejected: %s' % got); continue
+                if got['kind'] == 'EXPRCONST':      # a constant operand is folded by mkbinaryexpr
+                    r.instance(canon(got['type']) == canon(prom), key, where, 'type %s, expected %s' % (got['type'], prom)); continue
+                ok = got['kind'] == 'EXPRBINARY' and got['op'] == ev(prog, 'TXOR') and canon(got['type']) == canon(prom) and got['operand'] and canon(got['ltype']) == canon(prom) and got['rconst'] == 2 ** 64 - 1 and canon(got['rtype']) == canon(prom)
+                r.instance(bool(ok), key, where, 'expected (promoted operand : %s) ^ all-ones of that type; got %s' % (prom, got))
+            elif op == 'TLNOT':
+                if not scalar: r.instance(got == 'error', key, where, 'operand must be scalar: expected a diagnostic, got %s' % (got,)); continue
+                if isinstance(got, str): r.instance(False, key, where, 'valid operand rejected: %s' % got); continue
+                if got['kind'] == 'EXPRCONST':
+                    r.instance(got['type'] == 'int', key, where, 'type %s, expected int' % got['type']); continue
+                ok = got['kind'] == 'EXPRBINARY' and got['op'] == ev(prog, 'TEQL') and got['type'] == 'int' and got['operand'] and got['rconst'] == 0
+                r.instance(bool(ok), key, where, 'expected (operand == 0) of type int; got %s' % (got,))
+            else:
+                if d.get('w') is not None: r.instance(got == 'error', key, where, 'sizeof/_Alignof of a bit-field must be diagnosed; got %s' % (got,)); continue
+                if op == 'TALIGNOF':
+                    # `_Alignof expression` is not C; the token script offers no parenthesised type name, so a diagnostic is required
+                    r.instance(got == 'error', key, where, '_Alignof needs a parenthesised type name; got %s' % (got,)); continue
+                size = SIZES.get(d.get('t')) if arith else (8 if d['k'] == 'ptr' else 8 if d['k'] == 'struct' else None)
+                if isinstance(got, str): r.instance(False, key, where, 'valid operand rejected: %s' % got); continue
+                ok = got['kind'] == 'EXPRCONST' and got['type'] == 'ulong' and got['value'] == size
+                r.instance(bool(ok), key, where, 'expected the size_t constant %s; got %s' % (size, got))
+    r.exhaustive = True
+
+
 # ------------------------------------------------------------------ C05.d integer literal typing
 
 LIT_ROWS = {   # suffix class -> (decimal list, non-decimal list)   C11 6.4.4.1p5
@@ -651,6 +753,7 @@ def run(chk, tier):
     chk.guard('C05.b', lambda: rule_common(chk, prog, tier))
     chk.guard('C05.c', lambda: rule_binary_types(chk, prog, tier))
     chk.guard('C05.c2', lambda: rule_pointer_scale(chk, prog, tier))
+    chk.guard('C05.g', lambda: rule_unary(chk, prog, tier))
     chk.guard('C05.d', lambda: rule_literals(chk, prog, tier))
     chk.guard('C05.d2', lambda: rule_literal_base(chk, prog, tier))
     chk.guard('C05.f', lambda: rule_descriptors(chk, prog, tier))
